@@ -293,9 +293,8 @@ def parse_shape(R, ctx):
         if cn and (is_ok or is_err):
             n_all += 1
             if r.get(f"variant({cn[-1][0]}#{cn[-1][2].get('n')})") != 'None':
-                bad_all = ("the loop over the comma-separated parts ends before the parts are exhausted (after a part that is " +
-                           ("empty" if any('is_empty' in a and 'next#' in a for a, _v in r.cond) else "not accepted") +
-                           "): the rest of the specification text is neither applied nor reported as malformed")
+                bad_all = ("the loop over the comma-separated parts ends before the parts are exhausted (truncating adaptor, break or early return on some part): "
+                           "the rest of the specification text is neither applied nor reported as malformed")
         # the last segment header (next() == None) is followed by the text-filter part: not a segment
         for sg in segs[:-1] if segs else []:
             if sg['err']:
